@@ -1226,9 +1226,11 @@ inline std::string pair_class(int op, PairCtx const& c, V a, V b)
         return s + (2 * rem < c.D ? "below_half" : "above_half");
     }
     s += (c.N == 1 && c.D == 1) ? "same_period" : "diff_period";
-    s += "/";
-    s += is_fp(c.fr) ? sign_char(a.f) : sign_char(i128(a.i));
-    s += is_fp(c.tr) ? sign_char(b.f) : sign_char(i128(b.i));
+    if (op == P_DIV || op == P_MOD) { // the only binary operations whose rounding depends on the signs
+        s += "/";
+        s += is_fp(c.fr) ? sign_char(a.f) : sign_char(i128(a.i));
+        s += is_fp(c.tr) ? sign_char(b.f) : sign_char(i128(b.i));
+    }
     return s;
 }
 
@@ -1258,6 +1260,18 @@ struct Tally {
     std::uint64_t evaluations{0}, nontrivial{0}, skipped{0}, ties{0};
 };
 
+/// Records a violation; the case and detail strings are only built for the first witness of a
+/// (property, subject, class) - unrepaired trees produce millions of repeats.
+template <typename CaseF, typename DetailF>
+void report(mc::Reporter& r, char const* prop, std::string const& subject, std::string const& cls, CaseF&& mk_case, DetailF&& mk_detail)
+{
+    if (r.viols.find(std::make_tuple(std::string(prop), subject, cls)) != r.viols.end()) {
+        r.violation(prop, subject, cls, std::string(), std::string());
+    } else {
+        r.violation(prop, subject, cls, mk_case(), mk_detail());
+    }
+}
+
 /// guard + sanitizer bookkeeping around one call pair (std first, then tetl inside a guard);
 /// returns false when the tetl call trapped (already reported)
 template <typename ClassF, typename CaseF>
@@ -1274,7 +1288,8 @@ bool run_both(mc::Reporter& r, OpFn etl, OpFn stdf, int op, V a, V b, char const
         return false;
     }
     if (mc::san_hits() != before) {
-        r.violation("C02", subject, mk_class(), mk_case(), "sanitizer report during a call whose exact result is representable");
+        report(r, "C02", subject, mk_class(), mk_case,
+            [] { return std::string("sanitizer report during a call whose exact result is representable"); });
     }
     return true;
 }
@@ -1408,8 +1423,9 @@ inline void run_pair(mc::Reporter& r, PairEntry const& e, int range_a, int range
             return;
         }
         if (!same(eo, so)) {
-            r.violation("C12", subject, mk_class(), mk_case(),
-                mc::cat("etl ", show_out(eo), " std ", show_out(so), any_fp ? std::string() : " exact " + dec(exact)));
+            report(r, "C12", subject, mk_class(), mk_case, [&] {
+                return mc::cat("etl ", show_out(eo), " std ", show_out(so), any_fp ? std::string() : " exact " + dec(exact));
+            });
         }
     };
 
@@ -1499,7 +1515,7 @@ inline void run_self(mc::Reporter& r, SelfEntry const& e, int range_a, int range
             return;
         }
         if (!same(eo, so)) {
-            r.violation("C12", subject, mk_class(), mk_case(), mc::cat("etl ", show_out(eo), " std ", show_out(so)));
+            report(r, "C12", subject, mk_class(), mk_case, [&] { return mc::cat("etl ", show_out(eo), " std ", show_out(so)); });
         }
     };
     for (int op = S_ZERO; op < S_FIRST_BINARY; ++op) { one(op, V{}, V{}); }
